@@ -69,7 +69,10 @@ def generate(rng, tier):
     else:
         w = build(spec)
     cuts = sample_cuts(rng, w)
-    return {'spec': spec, 'raw_ts': rng.random() < 0.5, 'cuts': cuts, 'sampled': cuts is not None, 'win_seed': rng.getrandbits(32)}
+    return {'spec': spec, 'raw_ts': rng.random() < 0.5, 'cuts': cuts, 'sampled': cuts is not None, 'win_seed': rng.getrandbits(32),
+            # C06 worlds have few segments: the block size of the reader's offset-array comparison is small in most of them,
+            # so that its multi-block paths meet cut files
+            'dedup_chunk': rng.choice([1, 1, 2, 2, 3, 100])}
 
 
 def sample_cuts(rng, w, limit=3000):
